@@ -3,6 +3,7 @@ package txnsim
 import (
 	"fmt"
 	"sort"
+	"time"
 
 	"github.com/pingcap/kvproto/pkg/kvrpcpb"
 	"github.com/tikv/client-go/v2/verifsim/simkit"
@@ -372,4 +373,57 @@ func (c *checker) checkC03() {
 			c.fail("C03", "undetermined-without-cause", fmt.Sprintf("txn%d", h.Prog.ID), "txn %d: Commit returned 'result undetermined' but every commit-point request of it was answered definitely", h.Prog.ID)
 		}
 	}
+}
+
+// checkC05: every snapshot read through every path equals the MVCC truth at its timestamp.
+func (c *checker) checkC05(reads []SnapRead, maxTTL time.Duration) {
+	for i, rd := range reads {
+		sig := fmt.Sprintf("read%d.%s", i, rd.Path)
+		if rd.Path == "riter" && rd.Hi == "" {
+			sig = "riter-unbounded-upper " + sig
+		}
+		if rd.Err != "" {
+			continue
+		}
+		// liveness: without faults a read ends within the lock ttl plus the resolver's back-off budget
+		if !rd.Faulty && rd.Took > maxTTL+60*time.Second {
+			c.fail("C05", "read-too-slow", sig, "snapshot read %s at ts %d took %v of simulated time (ttl %v) without any injected fault", rd.Path, rd.TS, rd.Took, maxTTL)
+		}
+		switch rd.Path {
+		case "get", "bget":
+			for _, k := range simkit.SortedKeys(rd.Vals) {
+				var want *string
+				if v, ok := c.truth[k].ValueAt(rd.TS); ok {
+					s := string(v)
+					want = &s
+				}
+				got := rd.Vals[k]
+				if rd.KeyOnly && got != nil && want != nil {
+					continue // key-only applies to scans; point reads still carry values, but do not insist
+				}
+				if !eqVal(got, want) {
+					c.fail("C05", "snapshot-read-mismatch", sig, "%s phase: snapshot(ts=%d).%s(%q) = %s (warm=%v), MVCC truth is %s (%s)", rd.Phase, rd.TS, rd.Path, k, fmtVal(got), rd.Warm, fmtVal(want), describeKey(c.truth[k]))
+				}
+			}
+		case "iter", "riter":
+			op := Op{Kind: rd.Path, Lo: rd.Lo, Hi: rd.Hi}
+			want := expectedScan(c.truth, nil, op, rd.TS)
+			got := rd.Pairs
+			if rd.KeyOnly {
+				want = keysOnly(want)
+				got = keysOnly(got)
+			}
+			if !eqPairs(got, want) {
+				c.fail("C05", "snapshot-scan-mismatch", sig, "%s phase: snapshot(ts=%d).%s[%q,%q) batch=%d keyOnly=%v = %v, MVCC truth is %v", rd.Phase, rd.TS, rd.Path, rd.Lo, rd.Hi, rd.Batch, rd.KeyOnly, got, want)
+			}
+		}
+	}
+}
+
+func keysOnly(ps [][2]string) [][2]string {
+	out := make([][2]string, len(ps))
+	for i, p := range ps {
+		out[i] = [2]string{p[0], ""}
+	}
+	return out
 }
